@@ -165,6 +165,7 @@ def declare(spec):
         "NetworkRouting": ["simulation"],
         "NodeRouting": ["simulation", "node"],
         "Distribution": ["simulation"],
+        "ServiceCentre": ["reneging"],      # set for every service centre by Network.__init__
     }.items():
         for n in names:
             spec.lazy_ok.add((cls, n))
